@@ -251,6 +251,8 @@ type Expect struct {
 	WantErr  bool
 	ErrNames []string // names that the error message must mention (back-quoted items)
 	Unspec   string
+	// ValueUnspec: options whose final value the statement does not pin for this vector
+	ValueUnspec map[*Opt]bool
 }
 
 func newExpect(d *Decl) *Expect {
@@ -313,6 +315,14 @@ func (e *Expect) occurMember(f *Opt) {
 
 // occurOptional: an optional-argument option given without argument stores its optional value(s).
 func (e *Expect) occurOptional(o *Opt) {
+	if len(o.OptionalValues) == 0 {
+		// no optional-value declared: what the bare option stores is not stated (the unchanged library treats it
+		// as "not given": defaults apply afterwards) - only its value is left unjudged, the rest of the vector is
+		if e.ValueUnspec == nil {
+			e.ValueUnspec = map[*Opt]bool{}
+		}
+		e.ValueUnspec[o] = true
+	}
 	sh, ok := e.Shadow[o]
 	if !ok {
 		sh = reflect.New(o.T.GoType()).Elem()
